@@ -30,6 +30,7 @@ func rulesC13(p *Prog, r *Report) {
 	r.Rule("P3", "sufficient", 20, "no output, no unclassified callee: every out-of-module callee of a reachable function is in the pure / mutates-own-argument table; print/println are absent; dynamic calls resolve to analysed functions")
 	r.Rule("P4", "sufficient", 20, "determinism: no map iteration, select, channel operation, goroutine, or pointer-valued format verb in a reachable function")
 	r.Rule("P5", "sufficient", 20, "every store in a reachable function goes to memory allocated during the call (address not derived from a global or from caller-owned memory)")
+	fmtWrappers := formatWrappers(p)
 	r.Rule("P6", "sufficient", 4, "every exported function's reference-typed result is freshly allocated or immutable on every path")
 
 	// P0 imports
@@ -253,6 +254,12 @@ func rulesC13(p *Prog, r *Report) {
 					continue
 				}
 				if p.InModule(callee) {
+					// a printf-style wrapper: the format must be a constant here, and is judged here
+					if w := fmtWrappers[callee]; w != nil && w.argsIdx < len(com.Args) {
+						if msg := formatVerbsAt(com.Args[w.fmtIdx], com, w.argsIdx); msg != "" {
+							p4 = append(p4, fmt.Sprintf("%s: %s", p.pos(in.Pos()), msg))
+						}
+					}
 					continue
 				}
 				si := classifyStd(callee)
@@ -261,7 +268,9 @@ func rulesC13(p *Prog, r *Report) {
 					if si.Nondet {
 						p4 = append(p4, fmt.Sprintf("%s: %s is not a function of its arguments", p.pos(in.Pos()), callee))
 					}
-					if msg := formatVerbs(callee, com); msg != "" {
+					if w := fmtWrappers[f]; w != nil && len(com.Args) > 0 && com.Args[0] == ssa.Value(f.Params[w.fmtIdx]) && (callee.String() == "fmt.Sprintf" || callee.String() == "fmt.Errorf") {
+						// the wrapper forwarding its own format: judged at the wrapper's call sites
+					} else if msg := formatVerbs(callee, com); msg != "" {
 						p4 = append(p4, fmt.Sprintf("%s: %s", p.pos(in.Pos()), msg))
 					}
 				case stdForbidden:
@@ -502,7 +511,13 @@ func formatVerbs(callee *ssa.Function, com *ssa.CallCommon) string {
 		}
 		return ""
 	}
-	c, ok := com.Args[0].(*ssa.Const)
+	return formatVerbsAt(com.Args[0], com, 1)
+}
+
+// formatVerbsAt: the format operand must be a constant without %p, and no pointer may be printed through
+// the variadic operand at index argsIdx.
+func formatVerbsAt(format ssa.Value, com *ssa.CallCommon, argsIdx int) string {
+	c, ok := format.(*ssa.Const)
 	if !ok || c.Value == nil || c.Value.Kind() != constant.String {
 		return "format string is not a constant"
 	}
@@ -511,7 +526,7 @@ func formatVerbs(callee *ssa.Function, com *ssa.CallCommon) string {
 			return "format verb %p prints an address"
 		}
 	}
-	return variadicPointerArg(com, 1)
+	return variadicPointerArg(com, argsIdx)
 }
 
 func variadicPointerArg(com *ssa.CallCommon, idx int) string {
